@@ -225,12 +225,12 @@ PROPS = {
                        "initialises the value the getter returns, or in a panicking guard of the constructor that bounds it (the *Small algorithms) -- so no formula asks the "
                        "wrong transform or the wrong kind; (4) R-SUFFICE: for the same hand-offs the length of the slice handed over is compared symbolically with the inner "
                        "requirement, the advertised length being expanded to the guarded formula its constructor stored (if/max as case splits, constructor asserts as "
-                       "hypotheses, inner getters renamed from constructor to kernel): proved for 56 of 79 hand-offs on the pinned tree (all AVX mixed-radix types, "
-                       "Radix3/4/N immutable paths, MixedRadix/GoodThomas in-place and immutable paths, Bluestein), refuted -- for exported types, with a concrete assignment of "
+                       "hypotheses, inner getters renamed from constructor to kernel): proved for 58 of 79 hand-offs on the pinned tree (all AVX mixed-radix types, "
+                       "Radix3/4/N immutable paths, MixedRadix/GoodThomas in-place and immutable paths, Bluestein), refuted -- with a concrete assignment of "
                        "the inner lengths and requirements as witness -- when a formula under-advertises, undecided otherwise. NOT decided: that the advertised size suffices (arithmetic over run-time lengths with max/if), and that every "
                        "scratch or output element is written before it is read (bit-for-bit independence from initial contents beyond the Bluestein padding).",
-        "decides": "longer scratch == exact scratch (trim); Bluestein padding zero-filled on every call; advertised-length formulas consult the matching requirement of every inner transform that receives scratch, and cover it for the 56 hand-offs the symbolic comparison proves",
-        "does_not_decide": "sufficiency of the advertised sizes where the comparison is undecided (23 hand-offs: loop-carried lengths, Rader's split buffers, AVX Bluestein vector counts); write-before-read of whole buffers, i.e. independence from initial scratch/output contents in general",
+        "decides": "longer scratch == exact scratch (trim); Bluestein padding zero-filled on every call; advertised-length formulas consult the matching requirement of every inner transform that receives scratch, and cover it for the 58 hand-offs the symbolic comparison proves",
+        "does_not_decide": "sufficiency of the advertised sizes where the comparison is undecided (21 hand-offs: loop-carried lengths, Rader's split buffers, AVX Bluestein vector counts); write-before-read of whole buffers, i.e. independence from initial scratch/output contents in general",
         "assumptions": ["x86_64 non-test code", "inner transforms are fields of type Arc<dyn Fft<T>> (one level of struct nesting)"],
     },
     "C03": {
